@@ -127,8 +127,19 @@ func Load(o LoadOpts) (*Prog, error) {
 	return pr, nil
 }
 
+// FuncAlias maps a function that was renamed since the reviewed tree to the
+// (unqualified) name it had there; every name rendered for it uses that name.
+var FuncAlias = map[*types.Func]string{}
+
 // QualName renders "Recv.Name" for methods and "Name" for functions.
 func QualName(f *types.Func) string {
+	if a, ok := FuncAlias[f]; ok {
+		return qualWith(f, a)
+	}
+	return qualWith(f, f.Name())
+}
+
+func qualWith(f *types.Func, name string) string {
 	sig, _ := f.Type().(*types.Signature)
 	if sig != nil && sig.Recv() != nil {
 		t := sig.Recv().Type()
@@ -136,13 +147,33 @@ func QualName(f *types.Func) string {
 			t = p.Elem()
 		}
 		if n, ok := t.(*types.Named); ok {
-			return n.Obj().Name() + "." + f.Name()
+			return n.Obj().Name() + "." + name
 		}
 		if a, ok := t.(*types.Alias); ok {
-			return a.Obj().Name() + "." + f.Name()
+			return a.Obj().Name() + "." + name
 		}
 	}
-	return f.Name()
+	return name
+}
+
+// SigStr renders a function's signature without parameter names (receiver excluded).
+func SigStr(p *Prog, f *types.Func) string {
+	sig, _ := f.Type().(*types.Signature)
+	if sig == nil {
+		return ""
+	}
+	var ps, rs []string
+	for i := 0; i < sig.Params().Len(); i++ {
+		ps = append(ps, TypeStr(p, sig.Params().At(i).Type()))
+	}
+	for i := 0; i < sig.Results().Len(); i++ {
+		rs = append(rs, TypeStr(p, sig.Results().At(i).Type()))
+	}
+	v := ""
+	if sig.Variadic() {
+		v = "..."
+	}
+	return "(" + strings.Join(ps, ",") + v + ")(" + strings.Join(rs, ",") + ")"
 }
 
 // Pos renders file:line:col relative to the repo dir.
